@@ -428,7 +428,15 @@ def collision_case(draw):
     """Unrelated structures that happen to use the same tag / element type names and array counts."""
     n = draw(st.integers(1, 3))
     b1, b2 = draw(st.sampled_from(BODIES)), draw(st.sampled_from(BODIES))
-    kind = draw(st.sampled_from(["tag", "tag", "u48", "anon-vs-tag"]))
+    kind = draw(st.sampled_from(["tag", "tag", "u48", "anon-vs-tag", "const-vs-member"]))
+    if kind == "const-vs-member":
+        # an unrelated constant spelled like a member of a named enum whose later members refer to it
+        k9 = draw(st.integers(0, 200))
+        base = draw(st.sampled_from(["enum", "flag"]))
+        t1 = f"{base} E1 : uint16 {{ FIRST = 1, SECOND = FIRST + 1, THIRD = FIRST << 2, LAST = THIRD | SECOND }};\nstruct S1 {{ E1 e[{n}]; uint8 z; }};\n"
+        t2 = draw(st.sampled_from([f"#define FIRST {k9}\n", f"enum {{ FIRST = {k9}, OTHER }};\n", f"#define THIRD {k9}\n#define K8 (THIRD + 1)\n"]))
+        items = [{"kind": "enum", "name": "E1", "text": t1, "deps": [], "names": ["E1", "S1"]}, {"kind": "define", "name": "FIRST", "text": t2, "deps": [], "names": ["FIRST"]}]
+        return {"items": items, "edit": "order", "perm": [draw(st.integers(0, 5)) for _ in items], "compiled": draw(st.booleans()), "align": draw(st.booleans())}
     if kind == "tag":
         t1 = f"struct S1 {{ uint8 pre; struct item {{ {b1} }} items[{n}]; }};\n"
         t2 = f"struct S2 {{ struct item {{ {b2} }} items[{n}]; uint16 post; }};\n"
